@@ -400,6 +400,27 @@ let () =
                 let fl = List.init n (fun i -> toks.(3 * i + 2) = "1") in
                 let t = { t_clauses = cls; t_root = nat_of_int (int_of_string root); t_terminal = (term = "1") } in
                 out ("P " ^ dump_tape (tape_push (nat_of_int n) (keep_interval f32 lo hi fl) t))
+            | "getbase", n :: rest ->
+                (* getbase <n> (I|P lx ly lz ux uy uz)*n  P x,y,z ...  R lx,ly,lz,ux,uy,uz ... *)
+                let n = int_of_string n in
+                let toks = Array.of_list rest in
+                let lv = List.init n (fun i ->
+                    let f k = of_hex32 toks.(7 * i + k) in
+                    { l_interval = (toks.(7 * i) = "I");
+                      l_lo = ((f 1, f 2), f 3); l_hi = ((f 4, f 5), f 6); l_tape = i }) in
+                let rest = List.filteri (fun i _ -> i >= 7 * n) rest in
+                let mode = ref "" in
+                let outp = Buffer.create 64 in
+                List.iter (fun tk ->
+                    if tk = "P" || tk = "R" then (mode := tk; Buffer.add_string outp (" " ^ tk))
+                    else begin
+                      let fs = Array.of_list (List.map of_hex32 (String.split_on_char ',' tk)) in
+                      let idx =
+                        if !mode = "P" then get_base_idx (in_level f32 ((fs.(0), fs.(1)), fs.(2))) lv
+                        else get_base_idx (box_in_level f32 ((fs.(0), fs.(1)), fs.(2)) ((fs.(3), fs.(4)), fs.(5))) lv in
+                      Buffer.add_string outp (" " ^ string_of_int (int_of_nat idx))
+                    end) rest;
+                out ("GB" ^ Buffer.contents outp)
             | "pushpt", n :: root :: term :: rest ->
                 let n = int_of_string n in
                 let nc = int_of_string (List.hd rest) in
